@@ -39,7 +39,7 @@ def lps(draw, tier="quick"):
     b = [draw(st.one_of(st.integers(-6, 12), st.integers(0, 12))) for _ in range(m)]
     c = [draw(st.integers(-6, 6)) for _ in range(n)]
     tags = []
-    kinds = draw(st.lists(st.sampled_from(["degenerate", "dup", "redundant", "zero-row", "zero-col", "box", "box", "neg-rhs", "tie"]), max_size=3, unique=True))
+    kinds = draw(st.lists(st.sampled_from(["degenerate", "dup", "redundant", "zero-row", "zero-col", "box", "box", "neg-rhs", "tie", "free-ray"]), max_size=3, unique=True))
     if "degenerate" in kinds:
         xs = [draw(st.integers(0, 3)) for _ in range(n)]
         k = draw(st.integers(min(m, n + 1), m)) if m >= 1 else 0
@@ -87,6 +87,20 @@ def lps(draw, tier="quick"):
         for r in A:
             r[j] = 0
         tags.append("zero-column")
+    minimize = draw(st.booleans())
+    ip_max_iter = draw(st.sampled_from([None, None, None, None, 7, 40]))
+    if "free-ray" in kinds and n >= 2 and "box" not in kinds:
+        # an unconstrained variable with an improving objective (unbounded ray) while the origin is infeasible:
+        # iterates of an infeasible-start method diverge; the iteration budget decides where they are cut off
+        z = draw(st.integers(0, n - 1))
+        for r in A:
+            r[z] = 0
+        c[z] = -draw(st.integers(1, 3)) if minimize else draw(st.integers(1, 3))
+        j = draw(st.sampled_from([k for k in range(n) if k != z]))
+        A.append([(-1 if k == j else 0) for k in range(n)])
+        b.append(-draw(st.integers(1, 3)))
+        ip_max_iter = draw(st.one_of(st.none(), st.integers(8, 48), st.integers(8, 48)))
+        tags.append("free-ray-origin-infeasible")
     if "box" in kinds:
         U = draw(st.integers(1, 6))
         for j in range(n):
@@ -100,7 +114,8 @@ def lps(draw, tier="quick"):
         "c": c,
         "A": A,
         "b": b,
-        "minimize": draw(st.booleans()),
+        "minimize": minimize,
+        "ip_max_iter": ip_max_iter,
         "tags": tags,
         "max_iter": draw(st.sampled_from([None] * 9 + [1, 3])),
     }
@@ -170,7 +185,9 @@ def run_interior(desc, ctx):
 
     A, b, c, ref = exact(desc)
     classify(desc, ref, ctx)
-    res = ctx.call(solve_lp_interior, desc["c"], desc["A"], desc["b"], minimize=desc["minimize"])  # any exception = crash bucket
+    kw = {} if desc.get("ip_max_iter") is None else {"max_iter": desc["ip_max_iter"]}
+    ctx.label(kw and "ip-max_iter-set")
+    res = ctx.call(solve_lp_interior, desc["c"], desc["A"], desc["b"], minimize=desc["minimize"], **kw)  # any exception = crash bucket
     status = res.status.name
     ctx.label("ip-" + status)
     x = res.solution
